@@ -36,7 +36,12 @@ theorem gen_exp_signs : GoodLex Jsonx.lexCfg := by decide
 theorem gen_depth_limited : Jsonx.cfg.depthLimit = some (Jsonx.depthLimit.getD 0) ∧ Jsonx.depthLimit.isSome = true := by
   decide
 
+/-- the sign case of `parseValue` looks at the next token itself and does not
+    call `parseValue`: a run of n signs costs no recursion level (the nesting
+    limit does not count signs, so the stack bound rests on this) -/
+theorem gen_sign_case_iterative : Jsonx.cfg.signRecursive = false := by decide
+
 theorem gen_cfg_good : GoodCfg Jsonx.cfg :=
-  ⟨gen_errMax_pos, gen_list_breaks, gen_skip_stops_at_eof, gen_skip_skips_other⟩
+  ⟨gen_errMax_pos, gen_list_breaks, gen_skip_stops_at_eof, gen_skip_skips_other, gen_sign_case_iterative⟩
 
 end PubModel.C08
